@@ -17,7 +17,12 @@ RULE = ("pairs residue/residue and residue/point (1..6 atoms per residue, spread
         "column), general triclinic (a GROMACS box rotated by a random rotation); a boundary stream puts one coordinate of the "
         "separation at (k+1/2) L +- {1.5e-6, 1e-5, 1e-3} nm; the inverse flag is exercised with numpy's inverse as argument; "
         "K additionally: no box, exactly singular boxes (a zero row, a zero column, the zero matrix -> LinAlgError), the empty "
-        "residue (ValueError), dyadic exact ties in triclinic boxes (round-half-even observable). A case is non-trivial when "
+        "residue (ValueError), dyadic exact ties in triclinic boxes (round-half-even observable); call histories: 2-4 consecutive "
+        "distance_to calls that share ONE point object (float64 ndarray / int64 ndarray / list / tuple), ONE box ndarray, ONE "
+        "inverse-box ndarray and the Residue objects (1-3 residues, centres away from the origin; same or other residue as self, "
+        "point or residue argument; with box / inverse flag / without box): K feeds every call the values the arrays hold when it "
+        "starts, S requires the caller's arrays bit-identical after every call and every value equal to the oracle's for the inputs "
+        "handed over. A case is non-trivial when "
         "it is distinct and a box is given; the histogram records box kind, argument kind, inverse flag and whether the "
         "nearest image differs from the separation itself (wrapped).")
 
@@ -274,6 +279,181 @@ def oracle_case(case, shifts):
     return bad
 
 
+# ------------------------------------------------------------------ call histories (caller's arrays are reused between calls)
+POINT_FORMS = ("f64", "f64", "f64", "int", "list", "tuple")
+
+
+def make_point(coords, form):
+    """the point argument the way a caller may hold it"""
+    if form == "f64":
+        return np.array(coords, dtype=np.float64)
+    if form == "int":
+        return np.array([int(round(x)) for x in coords], dtype=np.int64)
+    if form == "list":
+        return [float(x) for x in coords]
+    return tuple(float(x) for x in coords)
+
+
+def point_values(p):
+    return [float(x) for x in p]
+
+
+def same_bits(a, snap):
+    """bit-identical to the snapshot (ndarray: dtype, shape and bytes; list/tuple: type and the floats' bit patterns)"""
+    if isinstance(snap, np.ndarray):
+        return isinstance(a, np.ndarray) and a.dtype == snap.dtype and a.shape == snap.shape and a.tobytes() == snap.tobytes()
+    return type(a) is type(snap) and len(a) == len(snap) and \
+        np.array(a, dtype=np.float64).tobytes() == np.array(snap, dtype=np.float64).tobytes()
+
+
+def run_history(h):
+    """Runs the call sequence of h on the implementation with ONE point object, ONE box array, ONE inverse-box array and
+    ONE Residue object per residue, all reused between the calls.  Returns (records, bad):
+      records[k] = the values the caller's arrays hold when call k starts (what the pure model is fed) and the observation;
+      bad        = failed clauses: a caller's array changed by a call, or a call's value differs from the oracle's value for
+                   the inputs the caller handed over (the snapshots)."""
+    B0 = np.array(h["box"], dtype=float)
+    box = B0.copy()
+    ibox = np.linalg.inv(B0)
+    residues = [make_residue(pts, resid=k + 1, resname="R%d" % k) for k, pts in enumerate(h["residues"])]
+    point = make_point(h["point"], h["point_form"])
+    snap_point = point.copy() if isinstance(point, np.ndarray) else type(point)(point)
+    snap_box, snap_ibox = box.copy(), ibox.copy()
+    snap_res = [r.atoms_positions.copy() for r in residues]
+    ortho = is_ortho(B0)
+    records, bad = [], []
+    for k, c in enumerate(h["calls"]):
+        a = residues[c["self"]]
+        if c["other"] == "point":
+            okind, b, cur_other, want_other = "point", point, point_values(point), np.array(point_values(snap_point))
+        else:
+            okind, b = "residue", residues[c["other"]]
+            cur_other, want_other = b.atoms_positions.tolist(), snap_res[c["other"]].mean(axis=0)
+        cur_self = a.atoms_positions.tolist()
+        mode = c["box"]
+        try:
+            with np.errstate(all="ignore"):
+                if mode == "none":
+                    d = a.distance_to(b)
+                elif mode == "inv":
+                    d = a.distance_to(b, ibox, True)
+                else:
+                    d = a.distance_to(b, box_vects=box)
+            obs = ("ok", float(d))
+        except np.linalg.LinAlgError:
+            obs = ("err", "EDiv0")
+        except ValueError:
+            obs = ("err", "EValue")
+        except TypeError:
+            obs = ("err", "EType")
+        records.append({"self": cur_self, "other_kind": okind, "other": cur_other,
+                        "box": None if mode == "none" else (ibox if mode == "inv" else box).tolist(),
+                        "inv": mode == "inv", "obs": obs})
+        # (1) the caller's arrays are untouched
+        if not same_bits(point, snap_point):
+            bad.append("call %d (%s) changed the point given by the caller (%s): %s -> %s" %
+                       (k, mode, h["point_form"], point_values(snap_point), point_values(point)))
+        if not same_bits(box, snap_box) or not same_bits(ibox, snap_ibox):
+            bad.append("call %d (%s) changed the box array given by the caller" % (k, mode))
+        for j, r in enumerate(residues):
+            if not same_bits(r.atoms_positions, snap_res[j]):
+                bad.append("call %d (%s) changed the atom positions of residue %d" % (k, mode, j))
+        # (2) the value is the one the property fixes for the inputs handed over
+        v = want_other - snap_res[c["self"]].mean(axis=0)
+        if obs[0] != "ok" or not np.isfinite(obs[1]):
+            bad.append("call %d (%s) failed or is not finite: %r" % (k, mode, obs))
+        elif mode == "none":
+            free = float(np.linalg.norm(v))
+            if abs(obs[1] - free) > TOL * (1 + free):
+                bad.append("call %d without box returned %.12g, the non-periodic distance is %.12g" % (k, obs[1], free))
+        elif frac_margin_nm(np.linalg.solve(B0.T, v), B0) >= HALF_MARGIN:
+            if ortho:
+                want = brute_min_image(v, np.diag(B0))
+                what = "the minimum over the periodic images"
+            else:
+                sp = snap_res[c["self"]].tolist()
+                st, want = impl_distance(sp, okind, want_other.tolist() if okind == "point" else snap_res[c["other"]].tolist(),
+                                         B0, False)
+                what = "the value of the same query on fresh arrays"
+                if st != "ok":
+                    want = float("nan")
+            if not abs(obs[1] - want) <= TOL * (1 + want):
+                bad.append("call %d (%s, %s argument) returned %.12g, %s is %.12g" % (k, mode, okind, obs[1], what, want))
+        if len(bad) >= 6:
+            break
+    return records, bad
+
+
+def history_in_domain(h):
+    B = np.array(h["box"], dtype=float)
+    pt = np.array(point_values(make_point(h["point"], h["point_form"])))
+    for c in h["calls"]:
+        if c["box"] == "none":
+            continue
+        o = pt if c["other"] == "point" else centre(h["residues"][c["other"]])
+        f = np.linalg.solve(B.T, o - centre(h["residues"][c["self"]]))
+        if frac_margin_nm(f, B) < 2 * HALF_MARGIN:
+            return False
+    return True
+
+
+def gen_history(rs):
+    """2-4 consecutive distance_to calls sharing one point object, one box array and the Residue objects"""
+    while True:
+        kind, B = gen_box(rs)
+        nres = int(rs.randint(1, 4))
+        residues = []
+        for _ in range(nres):
+            cf = rs.uniform(-3, 3, size=3) if rs.randint(0, 4) else rs.uniform(-30, 30, size=3)
+            residues.append(blob(rs, cf @ B, int(rs.choice([1, 2, 3, 5]))).tolist())
+        form = str(rs.choice(POINT_FORMS))
+        f = rs.uniform(-4, 4, size=3)
+        pt = centre(residues[0]) + f @ B
+        if form == "int":
+            pt = np.round(pt)
+        ncalls = int(rs.randint(2, 5))
+        calls = []
+        for k in range(ncalls):
+            me = int(rs.randint(nres))
+            if k < 2 or nres == 1 or rs.randint(0, 3):
+                other = "point"
+            else:
+                other = int(rs.choice([j for j in range(nres) if j != me]))
+            calls.append({"self": me, "other": other, "box": str(rs.choice(["box", "box", "inv", "none"]))})
+        h = {"kind": "history", "boxkind": kind, "box": B.tolist(), "residues": residues,
+             "point": [float(x) for x in pt], "point_form": form, "calls": calls}
+        if history_in_domain(h):
+            return h
+
+
+def history_tag(h):
+    return "history/%s/%s/%dcalls" % ("ortho" if h["boxkind"].startswith("ortho") else "tric", h["point_form"], len(h["calls"]))
+
+
+# seeded/C19-4 (dropped copy): np.asarray(point, dtype=float) is the caller's own float64 array and `vect -= centre`
+# overwrote it; 1.208305 on the first call, 1.407125 on the second call with the same residue, point and box
+CORPUS_HISTORIES = [
+    {"kind": "history", "boxkind": "ortho", "box": np.diag([2.0, 3.0, 2.5]).tolist(),
+     "residues": [[[0.2, 0.3, 0.1], [0.4, 0.1, 0.3], [0.3, 0.5, 0.2]], [[1.9, 2.6, 6.1]]],
+     "point": [1.9, 2.6, 6.1], "point_form": "f64",
+     "calls": [{"self": 0, "other": "point", "box": "box"}, {"self": 0, "other": "point", "box": "box"},
+               {"self": 0, "other": "point", "box": "none"}, {"self": 0, "other": "point", "box": "inv"},
+               {"self": 1, "other": 0, "box": "box"}, {"self": 1, "other": "point", "box": "box"}]},
+    {"kind": "history", "boxkind": "tric_gromacs", "box": [[3.0, 0.0, 0.0], [1.0, 4.0, 0.0], [-1.0, 1.5, 5.0]],
+     "residues": [[[0.1, 0.2, 0.3], [0.5, 0.2, 0.1]]], "point": [7.0, 9.0, -14.0], "point_form": "int",
+     "calls": [{"self": 0, "other": "point", "box": "inv"}, {"self": 0, "other": "point", "box": "box"},
+               {"self": 0, "other": "point", "box": "none"}]},
+]
+
+
+def report_history(ctx, h, bad):
+    if len(ctx.violations) >= MAX_REPLAYS:
+        ctx.cov["S"]["violations_not_written"] = ctx.cov["S"].get("violations_not_written", 0) + 1
+        return
+    ctx.violation("Residue.distance_to, call sequence on shared arrays: " + "; ".join(bad[:4]), h, key="distance_to_history")
+
+
+
 ALL_SHIFTS = [n for n in itertools.product(range(-3, 4), repeat=3) if any(n)]
 
 
@@ -325,6 +505,12 @@ def corpus(ctx):
         ctx.count(("corpus", repr(case)))
         if bad:
             report(ctx, case, bad)
+    for h in CORPUS_HISTORIES:
+        _, bad = run_history(h)
+        S["corpus"] += 1
+        ctx.count(("corpus", repr(h)))
+        if bad:
+            report_history(ctx, h, bad)
 
 
 def correspondence(ctx):
@@ -378,6 +564,22 @@ def correspondence(ctx):
         meta.append(dict(case, inv=False, variant="tie_dyadic", observed=list(obs)))
         hist["tie_dyadic"] = hist.get("tie_dyadic", 0) + 1
         ctx.count(("K", "tie", repr(case)))
+    # call histories: each call is an ordinary case fed the values the caller's arrays hold when the call starts
+    # (the model is pure); S decides on the same run whether the arrays were left alone and the values are right
+    n_hcalls = 0
+    for h in list(CORPUS_HISTORIES) + [gen_history(rs) for _ in range(ctx.n(300, 3000))]:
+        records, bad = run_history(h)
+        for k, r in enumerate(records):
+            cases.append(coq_case(r["self"], r["other_kind"], r["other"], r["box"], r["inv"], r["obs"]))
+            meta.append({"kind": "history", "history": h, "call": k, "fed": {x: r[x] for x in ("self", "other", "box", "inv")},
+                         "observed": list(r["obs"])})
+            n_hcalls += 1
+        tag = history_tag(h)
+        hist[tag] = hist.get(tag, 0) + 1
+        ctx.count(("K", "history", repr(h)))
+        ctx.cov["S"]["histories_on_K_cases"] = ctx.cov["S"].get("histories_on_K_cases", 0) + 1
+        if bad:
+            report_history(ctx, h, bad)
     # the empty residue cannot be built: ValueError <-> Err EValue
     for sp, ok, ot in (([], "point", [1.0, 2.0, 3.0]), ([[0.0, 0.0, 0.0]], "residue", [])):
         case = {"kind": "distance", "boxkind": "ortho", "box": np.diag([3.0, 4.0, 5.0]).tolist(), "self": sp,
@@ -398,6 +600,7 @@ def correspondence(ctx):
     K = ctx.cov["K"]
     K["cases"] = len(cases)
     K["wrapped_nearest_image_differs_from_separation"] = wrapped
+    K["calls_in_histories"] = n_hcalls
     K["input_distribution"] = hist
     K["log"] = log
     if codes is None:
@@ -409,7 +612,11 @@ def correspondence(ctx):
     dis = [dict(meta[i], code=c) for i, c in sorted(codes.items()) if c in (1, 3)]
     # DESIGN 4.5: the property oracle decides on every disagreeing input
     for d in dis[:50]:
-        if d.get("kind") == "distance" and d["boxkind"] not in ("singular", "tie_dyadic") and d["self"] and d["other"] \
+        if d.get("kind") == "history":
+            _, bad = run_history(d["history"])
+            if bad:
+                report_history(ctx, d["history"], bad)
+        elif d.get("kind") == "distance" and d["boxkind"] not in ("singular", "tie_dyadic") and d["self"] and d["other"] \
                 and in_domain(d):
             bad = oracle_case(d, ALL_SHIFTS)
             if bad:
@@ -437,6 +644,17 @@ def oracle(ctx, scale):
         if bad:
             fails += 1
             report(ctx, case, bad)
+    n_hist = ctx.n(500, 5000) * scale
+    for _ in range(n_hist):
+        h = gen_history(rs)
+        _, bad = run_history(h)
+        tag = history_tag(h)
+        hist[tag] = hist.get(tag, 0) + 1
+        ctx.count(("S", repr(h)))
+        if bad:
+            fails += 1
+            report_history(ctx, h, bad)
+    S["call_histories_x%d" % scale] = n_hist
     S["cases_x%d" % scale] = n - skipped
     S["cases_with_all_342_shifts_x%d" % scale] = n_full
     S["outside_quantifier_skipped"] = S.get("outside_quantifier_skipped", 0) + skipped
@@ -445,6 +663,12 @@ def oracle(ctx, scale):
 
 def replay(ctx, obj):
     r = obj["replay"]
+    if r.get("kind") == "history" and "history" in r:      # a K disagreement inside a history
+        r = r["history"]
+    if r.get("kind") == "history":
+        _, bad = run_history(r)
+        print(bad)
+        return not bad
     if r.get("kind") != "distance" or "box" not in r:
         print("replay names a proof/correspondence, not an input:", r)
         return False
